@@ -11,7 +11,8 @@
    Weights are non-negative integers.  Results are tagged tuples (see uf/).   *)
 EXTENDS Integers, Sequences, FiniteSets, SequencesExt
 
-VARIABLES nd, ed, dir, maxix, stamp, ret
+VARIABLES nd, ed, dir, maxix, stamp, ret,
+          pending    \* ghost: weights still to be visited by a running retain_*
 
 gvars == <<nd, ed, dir, maxix, stamp>>
 
@@ -128,9 +129,17 @@ ObsOK(o) ==
     /\ \A i \in DOMAIN o.pairs : PairOK(o.pairs[i])
     /\ \A i \in DOMAIN o.eq : EdgeQOK(o.eq[i])
 
-(* the cheap projection attached to mutating events: st = [nd |-> .., ed |-> <<<<s,t,w>>..>>] *)
+    /\ o.nb = NodeBound /\ o.eb = EdgeBound
+    /\ \A i \in DOMAIN o.cn : o.cn[i] = NLive(i - 1)        \* contains_node for 0..bound
+
+(* the projection attached to mutating events: st = [nd |-> .., ed |-> <<<<s,t,w>>..>>], the slots up
+   to node_bound / edge_bound (-1 = vacant).  The abstract state is canonical (no trailing
+   vacancies), so the projection must equal it. *)
 StMatches(st) ==
-    /\ st.nd = nd
-    /\ Len(st.ed) = Len(ed)
+    /\ st.nd = nd /\ Len(st.ed) = Len(ed)
     /\ \A i \in DOMAIN ed : st.ed[i] = <<ed[i].s, ed[i].t, ed[i].w>>
+\* the same about the NEXT state (written with explicit primes so that the argument is not primed)
+StMatchesN(st) ==
+    /\ st.nd = nd' /\ Len(st.ed) = Len(ed')
+    /\ \A i \in DOMAIN ed' : st.ed[i] = <<ed'[i].s, ed'[i].t, ed'[i].w>>
 =============================================================================
